@@ -152,6 +152,7 @@ func vfH_conc_frames() {
 	// the WriteControl caller's deadline does when the case split says so
 	vfTimersFire(false)
 	fires := false
+	pBy := true
 	if variant >= 1 {
 		fires = vfChoose(2) == 1
 	}
@@ -166,6 +167,9 @@ func vfH_conc_frames() {
 		}
 		vfTimersFire(fires)
 		pErr = c.WriteControl(PingMessage, []byte("hb"), pDeadline)
+		if variant >= 1 {
+			pBy = vfTimerBy(pDeadline)
+		}
 		vfTimersFire(false)
 		if variant == 2 {
 			p2Err = c.WriteControl(PongMessage, nil, time.Time{})
@@ -195,6 +199,9 @@ func vfH_conc_frames() {
 		ne, isNet := pErr.(*netError)
 		vfAssert(isNet && ne.Timeout(), "c11-writecontrol-fails-only-by-timeout")
 		vfAssert(variant >= 1, "c11-zero-deadline-never-times-out")
+		// "returns a timeout error by that deadline": the wait it gave up on was
+		// armed to end no later than the deadline
+		vfAssert(pBy, "c11-writecontrol-wait-armed-to-end-by-its-deadline")
 		vfAssert(pings == 0, "c11-timed-out-control-writes-nothing")
 	}
 	if variant == 2 {
